@@ -177,7 +177,7 @@ impl Scenario for C13 {
             }
             Who::ContractCaller => {
                 out.kind = "contract-caller";
-                let args: soroban_sdk::Vec<Val> = soroban_sdk::Vec::from_slice(env, &[Val::VOID.to_val(), cv, av, pv]);
+                let args: soroban_sdk::Vec<Val> = soroban_sdk::Vec::from_slice(env, &[soroban_sdk::Symbol::new(env, "__self__").to_val(), cv, av, pv]);
                 let c = w.call(
                     &ctx.caller,
                     "relay",
